@@ -3448,11 +3448,14 @@ func _append(n *node) {
 		}
 
 		n.exec = func(f *frame) bltn {
-			sl := make([]reflect.Value, l)
+			// An operand may be an element of the array the result is stored into:
+			// read all the operands before storing any.
+			s := value(f)
+			sl := reflect.MakeSlice(s.Type(), l, l)
 			for i, v := range values {
-				sl[i] = v(f)
+				sl.Index(i).Set(v(f))
 			}
-			dest(f).Set(reflect.Append(value(f), sl...))
+			dest(f).Set(reflect.AppendSlice(s, sl))
 			return next
 		}
 	default:
